@@ -164,3 +164,95 @@ Theorem C06_handler_blocks_not_lost :
 Proof. exact (fun encode block_size ops => proj1 (proj2 (@ServerHandler_proofs.C09_outbound_split encode block_size ops))). Qed.
 
 Print Assumptions C06_handler_blocks_not_lost.
+
+(* ---- a lost reply is served again (package S): if a batch from j to i carrying c is lost while i's query for c is live and both stay connected and j still
+   holds c, then after settle + refresh the query is answered; if settle alone did not answer it, a second batch carrying c for i enters the wire during
+   the refresh, and it is j's when j is i's only peer (with other holders connected, another one may answer first: the unqualified statement is false). *)
+From BS Require Import Server_lemmas Server_inv Wantlist_proofs Client_proofs Client_proofs2 Client_proofs3 Client_proofs4
+  Net Net_proofs Net_proofs2 Net_proofs3 Net_proofs4 Net_proofs5 Net_proofs6 Net_proofs7 Net_proofs9 Net_proofs10 Net_proofs14
+  Net_proofs24 Net_proofs28 Net_proofs32 Net_proofs35 Net_proofs36
+  NetB NetB_proofs NetB_proofs2 NetB_proofs3 NetB_proofs4 NetB_proofs5 NetB_proofs6.
+From BS Require Import NetB_props.
+From Coq Require Import ZArith Lia.
+Open Scope N_scope.
+
+Theorem C06_lost_reply_reserved_partial :
+  forall (Sz : N) (Hh : hash_fn),
+  32 <= Sz ->
+  forall (i j : N) (q : qid) (c : cid) (n : nat) (ops : list bop) (m : bmsg),
+  Forall (nop_good Sz Hh) (base_ops ops) ->
+  Forall (nop_wf Sz) (base_ops ops) ->
+  let s0 := fst (brun Sz Hh (net_init n) ops) in
+  next_batch s0 j i = Some m ->
+  In c (map fst (bm_blocks m)) ->
+  let s := fst (bstep Sz Hh s0 (BLoseB j i)) in
+  live_query i q c s ->
+  connected s i j = true ->
+  (exists (st : list (cid * bytes)) (d : bytes), store_of s j = Some st /\ store_get st c = SHit d) ->
+  let r1 := settle Sz Hh s in
+  let r2 := refresh Sz Hh (fst r1) in
+  (length (wl_i i (fst r1)) <= 1024)%nat ->
+  (exists rest : list bmsg,
+     take_first (b_between j i) (wire_b s0) = Some (m, rest) /\ wire_b s = rest /\ nodes s = nodes s0) /\
+  quietb (fst r1) = true /\
+  quietb (fst r2) = true /\
+  answered i q (snd r1 ++ snd r2) /\
+  (forall c' : cid,
+   In c' (wl_i i (fst r2)) <->
+   (exists st : sstate, server_of (fst r2) j = Some st /\ wantsP (s_wants st) i c')).
+Proof. exact (@NetB_props.S_C06_lost_reply_reserved_partial). Qed.
+
+Theorem C06_lost_reply_reserved :
+  forall (Sz : N) (Hh : hash_fn),
+  32 <= Sz ->
+  forall (i j : N) (q : qid) (c : cid) (n : nat) (ops : list bop) (m : bmsg),
+  Forall (nop_good Sz Hh) (base_ops ops) ->
+  Forall (nop_wf Sz) (base_ops ops) ->
+  let s0 := fst (brun Sz Hh (net_init n) ops) in
+  next_batch s0 j i = Some m ->
+  In c (map fst (bm_blocks m)) ->
+  let s := fst (bstep Sz Hh s0 (BLoseB j i)) in
+  live_query i q c s ->
+  connected s i j = true ->
+  (exists (st : list (cid * bytes)) (d : bytes), store_of s j = Some st /\ store_get st c = SHit d) ->
+  let r1 := settle Sz Hh s in
+  let r2 := refresh Sz Hh (fst r1) in
+  (length (wl_i i (fst r1)) <= 1024)%nat ->
+  answered i q (snd r1 ++ snd r2) /\
+  (~ answered i q (snd r1) ->
+   exists ops2 : list nop,
+     Forall sched ops2 /\
+     r2 = nrun Sz Hh (advance Sz Hh SEND_FULL_INTERVAL (fst r1)) ops2 /\
+     (exists (a : N) (m' : bmsg),
+        In m' (entered_b Sz Hh (advance Sz Hh SEND_FULL_INTERVAL (fst r1)) ops2) /\ carries a i c m' = true)).
+Proof. exact (@NetB_props.S_C06_lost_reply_reserved). Qed.
+
+Theorem C06_lost_reply_reserved_by_j :
+  forall (Sz : N) (Hh : hash_fn),
+  32 <= Sz ->
+  forall (i j : N) (q : qid) (c : cid) (n : nat) (ops : list bop) (m : bmsg),
+  Forall (nop_good Sz Hh) (base_ops ops) ->
+  Forall (nop_wf Sz) (base_ops ops) ->
+  let s0 := fst (brun Sz Hh (net_init n) ops) in
+  next_batch s0 j i = Some m ->
+  In c (map fst (bm_blocks m)) ->
+  let s := fst (bstep Sz Hh s0 (BLoseB j i)) in
+  live_query i q c s ->
+  connected s i j = true ->
+  (exists (st : list (cid * bytes)) (d : bytes), store_of s j = Some st /\ store_get st c = SHit d) ->
+  let r1 := settle Sz Hh s in
+  let r2 := refresh Sz Hh (fst r1) in
+  (length (wl_i i (fst r1)) <= 1024)%nat ->
+  (forall k : N, connected (fst r1) i k = true -> k = j) ->
+  ~ answered i q (snd r1) ->
+  answered i q (snd r1 ++ snd r2) /\
+  (exists ops2 : list nop,
+     Forall sched ops2 /\
+     r2 = nrun Sz Hh (advance Sz Hh SEND_FULL_INTERVAL (fst r1)) ops2 /\
+     (exists m' : bmsg,
+        In m' (entered_b Sz Hh (advance Sz Hh SEND_FULL_INTERVAL (fst r1)) ops2) /\ carries j i c m' = true)).
+Proof. exact (@NetB_props.S_C06_lost_reply_reserved_by_j). Qed.
+
+Print Assumptions C06_lost_reply_reserved_partial.
+Print Assumptions C06_lost_reply_reserved.
+Print Assumptions C06_lost_reply_reserved_by_j.
